@@ -128,7 +128,8 @@ def edit(rng, svcs, rules):
 
 DIRECTED = ["crit-add-then-change", "rule-add-then-change", "svc-add-then-change", "svc-remove-then-add", "svc-remove-all-then-add", "svc-change-and-back", "svc-readd-same", "rule-rename-and-back", "rule-remove-then-add",
             "crit-remove-then-add", "svc-swap-names", "svc-recase-xreply", "rule-recase-and-back", "same-size-edit", "same-address-across-reload", "value-recase-after-noop", "section-drop-then-restore",
-            "xquery-section-drop-then-restore", "rule-strip-after-noop", "svc-table-full-then-replace", "svc-many-long-names-removed-after-noop"]
+            "xquery-section-drop-then-restore", "rule-strip-after-noop", "svc-table-full-then-replace", "svc-many-long-names-removed-after-noop",
+            "value-shortened-to-prefix-after-noop", "svc-and-rule-added-together"]
 
 SAME_SIZE = {"class": [("aaaa", "bbbb"), ("users", "opers")], "address": [("10.1.2.0/24", "10.1.3.0/24"), ("10.1.*", "10.2.*"), ("2001:db8::/32", "2001:db9::/32")],
              "account": [("alice", "bobby"), ("al*", "bo*")], "hostname": [("*.net", "*.org"), ("host?.net", "host?.org")], "username": [("joe", "jae"), ("~*", "j*")]}
@@ -192,6 +193,32 @@ def directed_chain(rng, kind, svcs, rules):
         many = [("dronecheck-%02d.long-name.example.org" % k, rng.choice(["dronecheck", "login"])) for k in range(rng.choice([12, 16, 24]))]
         keep = [(a, pa), (b, pb)]
         return [(many + keep, r0, []), (many + keep, r0, [kind]), (keep, r0, [kind])]
+    if kind == "value-shortened-to-prefix-after-noop":
+        # an unchanged reload first, then a value is edited in place to a proper prefix of what it was (login-ipr -> login, ali* -> ali)
+        which = rng.choice(["proto", "account", "class", "hostname"])
+        base = [{"name": "00first", "class": "users2", "account": "ali*", "hostname": "*.example.org"}] + [r for r in copy.deepcopy(r0) if r["name"].lower() != "00first"]
+        if which != "account":
+            base[0].pop("account")
+        if which != "hostname":
+            base[0].pop("hostname")
+        r1 = copy.deepcopy(base)
+        sv_a, sv_b = [(a, "login-ipr"), (b, pb)], [(a, "login-ipr"), (b, pb)]
+        if which == "proto":
+            sv_b = [(a, "login"), (b, pb)]
+        elif which == "account":
+            r1[0]["account"] = "ali"
+        elif which == "class":
+            r1[0]["class"] = "users"
+        else:
+            r1[0]["hostname"] = "*.example"
+        return [(sv_a, base, []), (sv_a, copy.deepcopy(base), [kind]), (sv_b, r1, [kind])]
+    if kind == "svc-and-rule-added-together":
+        # one reload adds a service and, in the other section, the rule that asks for that service's OK
+        newsvc = rng.choice(["added.svc", "Aaa.first.svc", "zzz.last.svc"])
+        base = [r for r in copy.deepcopy(r0) if r["name"].lower() != "00first"]
+        r1 = [{"name": "00first", "xreply_ok": newsvc, "class": "checked"}] + copy.deepcopy(base)
+        sv_ = [(a, pa), (b, pb)]
+        return [(sv_, base, []), (sv_, copy.deepcopy(base), [kind]), (sv_ + [(newsvc, rng.choice(["dronecheck", "login"]))], r1, [kind])]
     if kind == "rule-strip-after-noop":
         # an unchanged reload first, then one rule (the first or the last one looked at) loses all its settings in one go
         nm = rng.choice(["00first", "zzlast"])
@@ -362,6 +389,8 @@ def _worker(a):
             how = pre.random()
             if a.get("directed") == "svc-table-full-then-replace" and k < 2:
                 how = [0.7, 0.9][k]         # both kinds of abandoned client
+            if a.get("directed") == "svc-recase-xreply" and k == 0:
+                how = 0.7
             if how < 0.6:
                 c11.probe(sa, pre, cid, None)            # brought to a verdict (or disconnected at the end)
             else:
@@ -369,6 +398,8 @@ def _worker(a):
                 sa.do({"t": "announce", "id": cid, "ip": "10.9.9.9", "port": 999})
                 sa.do({"t": "password", "id": cid, "text": "+x zed pw"})
                 sa.do({"t": "hurry", "id": cid})
+                if a.get("directed") == "svc-recase-xreply" and k == 0:
+                    continue       # ... and one that is still there, waiting, when the reloads happen
                 if how > 0.8:
                     # ... and whose id is announced again (the previous holder is replaced, not withdrawn)
                     sa.do({"t": "announce", "id": cid, "ip": "10.9.9.8", "port": 998})
